@@ -1,6 +1,7 @@
 """C16 - decoder instances are isolated and unharmed by bad input."""
 from __future__ import annotations
 
+import contextlib
 import copy
 
 from hypothesis import strategies as st
@@ -75,8 +76,17 @@ def ops(draw):
             out.append({"op": "warp", "seconds": draw(st.sampled_from([0.5, 1.0, 5.0, 3600.0]))})
         elif extra == 4:
             # a truncated frame on the probe stream
-            out.append({"op": "feed", "dec": draw(st.integers(0, n_dec - 1)),
-                        "item": {"kind": "raw", "pgn": 129029, "src": PROBE_SRC, "dest": 255, "data": draw(st.one_of(st.binary(min_size=0, max_size=2), st.integers(0, 7).map(lambda q: bytes([q << 5])))), "msg": -1, "junk": "truncated"}})
+            # ... or a burst of them with one sequence counter: bare first frame, first frame without data, bare continuation frames
+            dd = draw(st.integers(0, n_dec - 1))
+            if draw(st.booleans()):
+                datas = [draw(st.one_of(st.binary(min_size=0, max_size=2), st.integers(0, 7).map(lambda q: bytes([q << 5]))))]
+            else:
+                sq = draw(st.integers(0, 7)) << 5
+                datas = [bytes([sq | draw(st.sampled_from([0, 0, 1, 2, 3, 6, 7, 31]))]) + draw(st.binary(min_size=0, max_size=1))
+                         for _ in range(draw(st.integers(1, 4)))]
+            for data in datas:
+                out.append({"op": "feed", "dec": dd,
+                            "item": {"kind": "raw", "pgn": 129029, "src": PROBE_SRC, "dest": 255, "data": data, "msg": -1, "junk": "truncated"}})
     return n_dec, draw(st.lists(st.integers(0, len(CONFIGS) - 1), min_size=n_dec, max_size=n_dec)), out
 
 
@@ -300,7 +310,17 @@ def _aged(ctx: Ctx, item):
     from nmea2000.decoder import NMEA2000Decoder
     part, parts, n = item
     db = canboat.db()
-    aged = NMEA2000Decoder()
+    from ..common import debug_logging
+    claim = traffic.render({"pgn": 60928, "src": PROBE_SRC, "dest": 255, "data": traffic.iso_name(4242, 137).to_bytes(8, "little")})
+    claim3 = traffic.render({"pgn": 60928, "src": 3, "dest": 255, "data": traffic.iso_name(77, 229).to_bytes(8, "little")})
+
+    def mapped():
+        # network map on (messages carry hashes and the sender's identity); the senders have claimed their addresses
+        dec = NMEA2000Decoder(build_network_map=True)
+        dec.decode_tcp(claim)
+        dec.decode_tcp(claim3)
+        return dec
+    aged = mapped()
     for d in db.defs:
         if not d.supported:
             continue
@@ -333,23 +353,29 @@ def _aged(ctx: Ctx, item):
             ctx.nt((d.key, payload, via))
             res = []
             outs = []
-            for dec in (aged, NMEA2000Decoder()):
+            verbose = mapped()      # a fresh decoder working with the library's DEBUG logging enabled
+            for dec in (aged, mapped(), verbose):
                 try:
-                    if via == "combined" or (d.fast and nbytes > 223) or (not d.fast and nbytes > 8):
-                        r = dec.decode_basic_string(gen.basic_string(d.pgn, payload, nbytes, src=PROBE_SRC), already_combined=True)
-                    elif d.fast:
-                        k = (id(dec) if dec is aged else 0, d.pgn)
-                        seqs[k] = (seqs.get(k, 5) + 1) % 8
-                        r = None
-                        for fr in wire.segment(payload.to_bytes(nbytes, "little"), seqs[k]):
-                            r = traffic.feed(dec, {"kind": "fastframe", "pgn": d.pgn, "src": PROBE_SRC, "dest": 255, "data": fr})
-                    else:
-                        r = traffic.feed(dec, {"kind": "single", "pgn": d.pgn, "src": PROBE_SRC, "dest": 255, "data": payload.to_bytes(nbytes, "little")})
-                    outs.append(traffic.canon(r))
+                  with (debug_logging() if dec is verbose else contextlib.nullcontext()):
+                      if via == "combined" or (d.fast and nbytes > 223) or (not d.fast and nbytes > 8):
+                          r = dec.decode_basic_string(gen.basic_string(d.pgn, payload, nbytes, src=PROBE_SRC), already_combined=True)
+                      elif d.fast:
+                          k = (id(dec) if dec is aged else 0, d.pgn)
+                          seqs[k] = (seqs.get(k, 5) + 1) % 8
+                          r = None
+                          for fr in wire.segment(payload.to_bytes(nbytes, "little"), seqs[k]):
+                              r = traffic.feed(dec, {"kind": "fastframe", "pgn": d.pgn, "src": PROBE_SRC, "dest": 255, "data": fr})
+                      else:
+                          r = traffic.feed(dec, {"kind": "single", "pgn": d.pgn, "src": PROBE_SRC, "dest": 255, "data": payload.to_bytes(nbytes, "little")})
+                      outs.append(traffic.canon(r))
                 except Exception as e:
                     outs.append(("error", type(e).__name__, str(e)[:80]))
+            ctx.klass("aged_probe_returns_message" if outs[1] is not None and outs[1][0] != "error" else "aged_probe_returns_nothing")
             if outs[0] != outs[1]:
                 res.append((f"C16|aged-decoder|{via}", f"{d.key}: a decoder that has seen the whole database returns {str(outs[0])[:1200]}, a fresh one {str(outs[1])[:1200]}",
+                            {"aged": True, "definition": d.key, "payload_hex": payload.to_bytes(nbytes, "little").hex(), "via": via}))
+            if outs[2] != outs[1]:
+                res.append((f"C16|logging-dependent|{via}", f"{d.key}: a decoder returns {str(outs[2])[:600]} while the library's DEBUG logging is enabled, {str(outs[1])[:600]} otherwise",
                             {"aged": True, "definition": d.key, "payload_hex": payload.to_bytes(nbytes, "little").hex(), "via": via}))
             return res
         ctx.hyp(one, gen.payloads(d, mode="accepted", extra_bytes=False), st.sampled_from(["combined", "frames"]), max_examples=n, name="aged", shrink=False, rounds=2)
